@@ -11,7 +11,7 @@ use crate::kernel::stats::Stats;
 use crate::scenario::Scenario;
 use json_syntax::object::verif::{set_hash_config, HashMode};
 use json_syntax::object::{Duplicate, Entry, Key};
-use json_syntax::{Object, Value};
+use json_syntax::{CodeMap, Object, Parse, Value};
 use std::panic::{catch_unwind, AssertUnwindSafe};
 
 pub struct SimUnwind;
@@ -67,7 +67,10 @@ pub enum Applied { Ok(Res), Panicked(String) }
 
 /// Apply one operation to the real objects. Panics are contained; the deliberate `SimUnwind`
 /// of a cancellation is not a panic of the library.
-pub fn apply_real(op: &Op, regs: &mut [Object; REGISTERS]) -> Applied {
+pub fn apply_real(op: &Op, regs: &mut [Object; REGISTERS], maps: &mut [Option<CodeMap>; REGISTERS]) -> Applied {
+    // any operation invalidates the code map of the register it names (re-established below by from_parse / clone_to)
+    let kept = match op { Op::CloneTo { r, .. } => maps[*r].clone(), _ => None };
+    if !matches!(op, Op::CloneTo { .. }) { maps[op.reg()] = None; }
     let mut some = false;
     let mut pulled: Vec<KV> = vec![];
     let r = catch_unwind(AssertUnwindSafe(|| -> Res {
@@ -92,6 +95,14 @@ pub fn apply_real(op: &Op, regs: &mut [Object; REGISTERS]) -> Applied {
             }
             Op::FromIterEntries { r, es } => { regs[*r] = es.iter().map(|(k, v)| Entry::new(Key::from(k.as_str()), v.build())).collect::<Object>(); Res::Unit }
             Op::FromIterPairs { r, es } => { regs[*r] = es.iter().map(|(k, v)| (Key::from(k.as_str()), v.build())).collect::<Object>(); Res::Unit }
+            Op::FromParse { r, es } => {
+                let mut text = String::new();
+                write_object_text(es, &mut text);
+                let (v, map) = Value::parse_str(&text).expect("the harness wrote valid JSON");
+                regs[*r] = v.into_object().expect("an object");
+                maps[*r] = Some(map);
+                Res::Unit
+            }
             Op::ExtendEntries { r, es } => { regs[*r].extend(es.iter().map(|(k, v)| Entry::new(Key::from(k.as_str()), v.build()))); Res::Unit }
             Op::ExtendPairs { r, es } => { regs[*r].extend(es.iter().map(|(k, v)| (Key::from(k.as_str()), v.build()))); Res::Unit }
             Op::ExtendFrom { r, s } => { let src: Vec<Entry> = regs[*s].entries().to_vec(); regs[*r].extend(src); Res::Unit }
@@ -119,7 +130,7 @@ pub fn apply_real(op: &Op, regs: &mut [Object; REGISTERS]) -> Applied {
                 if let Some(s) = set { *slot = s.build(); }
                 Res::Got { value, called }
             }
-            Op::CloneTo { r, dst } => { let c = regs[*r].clone(); regs[*dst] = c; Res::Unit }
+            Op::CloneTo { r, dst } => { let c = regs[*r].clone(); regs[*dst] = c; maps[*dst] = kept.clone(); Res::Unit }
             Op::IntoIterRebuild { r } => { let o = std::mem::take(&mut regs[*r]); regs[*r] = o.into_iter().collect::<Object>(); Res::Unit }
             Op::Fresh { r } => { regs[*r] = if *r % 2 == 0 { Object::new() } else { Object::default() }; Res::Unit }
         }
@@ -162,7 +173,7 @@ pub fn apply_model(op: &Op, ms: &mut [M; REGISTERS]) -> Exp {
             Exp::Unique(match all.len() { 0 => Ok(None), 1 => Ok(Some(all[0].clone())), _ => Err((all[0].clone(), all[1].clone())) })
         }
         Op::Sort { r } => { model::sort(&mut ms[*r]); Exp::Unit }
-        Op::FromVec { r, es } | Op::FromIterEntries { r, es } | Op::FromIterPairs { r, es } => { ms[*r] = es.iter().map(|(k, v)| (k.clone(), v.build())).collect(); Exp::Unit }
+        Op::FromVec { r, es } | Op::FromIterEntries { r, es } | Op::FromIterPairs { r, es } | Op::FromParse { r, es } => { ms[*r] = es.iter().map(|(k, v)| (k.clone(), v.build())).collect(); Exp::Unit }
         Op::ExtendEntries { r, es } | Op::ExtendPairs { r, es } => { ms[*r].extend(es.iter().map(|(k, v)| (k.clone(), v.build()))); Exp::Unit }
         Op::ExtendFrom { r, s } => { let src = ms[*s].clone(); ms[*r].extend(src); Exp::Unit }
         Op::IterMutSet { r, i, v } => { if let Some(e) = ms[*r].get_mut(*i) { e.1 = v.build(); } Exp::Unit }
@@ -268,6 +279,43 @@ fn check_queries(o: &Object, m: &M, k: &str, by_key_type: bool) -> Result<(), St
     Ok(())
 }
 
+/// The mapped family of key queries (objects that came out of the parser, code map still valid):
+/// each must return, for the i-th occurrence of the key, exactly what `iter_mapped()` yields at
+/// that position — entry, index and fragment offsets.
+fn check_mapped_queries(o: &Object, map: &CodeMap, m: &M, k: &str) -> Result<(), String> {
+    let pos = model::positions(m, k);
+    // linear scan: (offset, key offset, value offset) per position
+    let scan: Vec<(usize, usize, usize)> = o.iter_mapped(map, 0).map(|e| (e.offset, e.value.key.offset, e.value.value.offset)).collect();
+    if scan.len() != m.len() { return Err(format!("iter_mapped yields {} entries but the object has {}", scan.len(), m.len())); }
+    let want: Vec<(usize, (usize, usize, usize))> = pos.iter().map(|p| (*p, scan[*p])).collect();
+    let ok_entry = |p: usize, key: &str, v: &Value| key == k && same_value(v, &m[p].1);
+    let a: Vec<_> = o.get_mapped_entries(map, 0, k).collect();
+    if a.len() != want.len() || !a.iter().zip(&want).all(|(e, (p, offs))| (e.offset, e.value.key.offset, e.value.value.offset) == *offs && ok_entry(*p, e.value.key.value.as_str(), e.value.value.value)) {
+        return Err(format!("get_mapped_entries({:?}) differs from what iter_mapped yields at positions {:?}", k, pos));
+    }
+    let b: Vec<_> = o.get_mapped_entries_with_index(map, 0, k).collect();
+    if b.len() != want.len() || !b.iter().zip(&want).all(|((i, e), (p, offs))| i == p && (e.offset, e.value.key.offset, e.value.value.offset) == *offs && ok_entry(*p, e.value.key.value.as_str(), e.value.value.value)) {
+        return Err(format!("get_mapped_entries_with_index({:?}) differs from what iter_mapped yields at positions {:?}", k, pos));
+    }
+    let c: Vec<_> = o.get_mapped(map, 0, k).collect();
+    if c.len() != want.len() || !c.iter().zip(&want).all(|(v, (p, offs))| v.offset == offs.2 && same_value(v.value, &m[*p].1)) {
+        return Err(format!("get_mapped({:?}) differs from the values iter_mapped yields at positions {:?}", k, pos));
+    }
+    let d: Vec<_> = o.get_mapped_with_index(map, 0, k).collect();
+    if d.len() != want.len() || !d.iter().zip(&want).all(|((i, v), (p, offs))| i == p && v.offset == offs.2 && same_value(v.value, &m[*p].1)) {
+        return Err(format!("get_mapped_with_index({:?}) differs from the values iter_mapped yields at positions {:?}", k, pos));
+    }
+    let shape = |n: usize| if n == 0 { "none" } else if n == 1 { "one" } else { "duplicate" };
+    let u1 = match o.get_unique_mapped_entry(map, 0, k) { Ok(None) => "none", Ok(Some(e)) => if e.offset == want[0].1 .0 { "one" } else { "wrong" }, Err(Duplicate(x, y)) => if want.len() >= 2 && x.offset == want[0].1 .0 && y.offset == want[1].1 .0 { "duplicate" } else { "wrong" } };
+    let u2 = match o.get_unique_mapped_entry_with_index(map, 0, k) { Ok(None) => "none", Ok(Some((i, e))) => if i == want[0].0 && e.offset == want[0].1 .0 { "one" } else { "wrong" }, Err(Duplicate((i, x), (j, y))) => if want.len() >= 2 && i == want[0].0 && j == want[1].0 && x.offset == want[0].1 .0 && y.offset == want[1].1 .0 { "duplicate" } else { "wrong" } };
+    let u3 = match o.get_unique_mapped(map, 0, k) { Ok(None) => "none", Ok(Some(v)) => if v.offset == want[0].1 .2 { "one" } else { "wrong" }, Err(Duplicate(x, y)) => if want.len() >= 2 && x.offset == want[0].1 .2 && y.offset == want[1].1 .2 { "duplicate" } else { "wrong" } };
+    let u4 = match o.get_unique_mapped_with_index(map, 0, k) { Ok(None) => "none", Ok(Some((i, v))) => if i == want[0].0 && v.offset == want[0].1 .2 { "one" } else { "wrong" }, Err(Duplicate((i, x), (j, y))) => if want.len() >= 2 && i == want[0].0 && j == want[1].0 && x.offset == want[0].1 .2 && y.offset == want[1].1 .2 { "duplicate" } else { "wrong" } };
+    for (name, got) in [("get_unique_mapped_entry", u1), ("get_unique_mapped_entry_with_index", u2), ("get_unique_mapped", u3), ("get_unique_mapped_with_index", u4)] {
+        if got != shape(want.len()) { return Err(format!("{}({:?}) answers '{}' but a linear scan finds {} entries at {:?}", name, k, got, want.len(), pos)); }
+    }
+    Ok(())
+}
+
 /// Index dump invariants: buckets partition 0..len; one key per bucket, one bucket per key;
 /// rep is the smallest position and the others are strictly ascending.
 pub fn check_index(o: &Object) -> Result<usize, String> {
@@ -306,6 +354,7 @@ fn viol(id: &str, step: usize, op: &Op, msg: String) -> Option<Violation> {
 pub fn run_c06(sc: &HistSc, st: &mut Stats) -> HistOutcome {
     set_hash_config(hash_mode_of(&sc.hash_mode), sc.hash_seed);
     let mut regs: [Object; REGISTERS] = [Object::new(), Object::new(), Object::new()];
+    let mut maps: [Option<CodeMap>; REGISTERS] = [None, None, None];
     let mut ms: [M; REGISTERS] = [vec![], vec![], vec![]];
     let uni = sc.universe();
     let small = uni.len() <= 8;
@@ -336,7 +385,7 @@ pub fn run_c06(sc: &HistSc, st: &mut Stats) -> HistOutcome {
         if let Some(k) = op.key() { st.bump(if k.len() > 16 { "keys.spilled_to_heap" } else { "keys.inline" }); }
         if cloned[r] { st.bump("probe.mutation_after_clone"); }
         let exp = apply_model(op, &mut ms);
-        let res = match apply_real(op, &mut regs) {
+        let res = match apply_real(op, &mut regs, &mut maps) {
             Applied::Ok(res) => res,
             Applied::Panicked(m) => return HistOutcome { violation: viol("c06.panic", step, op, format!("the operation panicked: {}", m)), outcome: d.finish(), nontrivial },
         };
@@ -377,7 +426,7 @@ pub fn run_c06(sc: &HistSc, st: &mut Stats) -> HistOutcome {
         }
         match op {
             Op::PushFront { .. } | Op::PushEntryFront { .. } | Op::InsertFront { .. } | Op::RemoveAt { .. } | Op::Remove { .. } | Op::RemoveUnique { .. } | Op::Insert { .. } => shifted[r] = true,
-            Op::Sort { .. } | Op::FromVec { .. } | Op::FromIterEntries { .. } | Op::FromIterPairs { .. } | Op::IntoIterRebuild { .. } | Op::Fresh { .. } => shifted[r] = false,
+            Op::Sort { .. } | Op::FromVec { .. } | Op::FromIterEntries { .. } | Op::FromIterPairs { .. } | Op::FromParse { .. } | Op::IntoIterRebuild { .. } | Op::Fresh { .. } => shifted[r] = false,
             Op::CloneTo { dst, .. } => { cloned[r] = true; cloned[*dst] = true; shifted[*dst] = shifted[r]; }
             _ => {}
         }
@@ -387,6 +436,10 @@ pub fn run_c06(sc: &HistSc, st: &mut Stats) -> HistOutcome {
             if full {
                 for (i, k) in uni.iter().enumerate() {
                     if let Err(m) = check_queries(&regs[q], &ms[q], k, (i + step) % 5 == 0) { return HistOutcome { violation: viol("c06.query", step, op, format!("register {}: {}", q, m)), outcome: d.finish(), nontrivial }; }
+                    if let Some(map) = &maps[q] {
+                        if let Err(m) = check_mapped_queries(&regs[q], map, &ms[q], k) { return HistOutcome { violation: viol("c06.query", step, op, format!("register {}: {}", q, m)), outcome: d.finish(), nontrivial }; }
+                        st.add("mapped_queries_checked", 8);
+                    }
                 }
                 st.add("queries_checked", 10 * uni.len() as u64);
             } else {
